@@ -1,7 +1,7 @@
 (* Executable entry points of the model, as run by the correspondence checks (extracted to OCaml by
    ExtractAll.v, and evaluated inside Coq with vm_compute by the kernel path).  Definitions only. *)
 From Coq Require Import List String ZArith NArith.
-From Bexpr Require Import Base Strconv Ast Unicode Peg Typing Actions GoGrammar PegGrammar Canon Univ Eval Api Dump Quote Wt Hooks.
+From Bexpr Require Import Base Strconv Ast Unicode Peg Typing Actions GoGrammar PegGrammar Canon Univ Eval Api Dump Quote Wt Hooks Json JsonOps JsonEval.
 Import ListNotations.
 Open Scope string_scope.
 
@@ -28,3 +28,6 @@ Definition model_execute (re : string -> string -> option bool) (src : string) (
   if String.eqb src "" then Some (execute re None d)
   else match model_create src os with Some ev => Some (execute re (Some ev) d) | None => None end.
 Definition model_dump (ind : string) (lvl : nat) (e : expr) : string := dump go_quote ind lvl e.
+
+(* the documented interpreter over JSON documents (JsonEval.v: proved equal to Evaluate on such documents) *)
+Definition model_jeval (re : string -> string -> option bool) (e : expr) (j : json) : option bool := jeval re [] e j.
